@@ -168,6 +168,12 @@ func (d *Dialer) init(ctx context.Context, err error) (*DialContext, error) {
 
 	var delay time.Duration
 	for i := 0; i < attempts; i++ {
+		// The first delay is zero: don't let the select below pick the timer
+		// over a context which is already canceled.
+		if err := ctx.Err(); err != nil {
+			return nil, err
+		}
+
 		select {
 		case <-ctx.Done():
 			return nil, ctx.Err()
